@@ -442,6 +442,32 @@ def rule_N3_flag(ctx):
                       ctx.where(sm, i))
 
 
+def rule_N3_scalar(ctx):
+    """A noise parameter with exactly one entry (a scalar, or an array of the
+    documented broadcastable shapes for a survey with one source / receiver /
+    frequency) is stored as a float.  `float(a)` only accepts 0-dimensional
+    arrays (NumPy >= 2), so the conversion has to go through .item() /
+    .ravel()[0] / squeeze."""
+    sm = ctx.repo.mod(SURV)
+    st = sm.method('Survey', '_set_nf_re')
+    br = find('if _v_.size == 1:\n    _v_ = _c_', st)
+    ctx.anchor(len(br) == 1, 'one-value branch in _set_nf_re')
+    V, C = br[0][1]['_v_'], br[0][1]['_c_'].replace(' ', '')
+    ok = C in (f'{V}.item()', f'float({V}.item())', f'float({V}.ravel()[0])',
+               f'float({V}.squeeze())', f'float(np.squeeze({V}))',
+               f'float({V}.flat[0])', f'{V}.ravel()[0]')
+    cast = [n for n in ast.walk(st) if isinstance(n, ast.Assign) and
+            ast.unparse(n.targets[0]) == V and
+            ast.unparse(n.value).startswith('np.asarray(')]
+    ctx.check('C13.N3.validate', 'Survey._set_nf_re: one-entry arrays become '
+              'a float', ok, f'`{V} = {br[0][1]["_c_"]}` with {V} = '
+              'np.asarray(input) of any dimension: float() of a (1,1,1) array '
+              'raises TypeError, so a per-frequency / per-source noise array '
+              'of a survey with a single frequency / source is rejected',
+              ctx.where(sm, br[0][0]), sample={'conversion': C,
+                                               'cast': bool(cast)})
+
+
 def rule_N4(ctx):
     sm = ctx.repo.mod(SURV)
     fn = sm.method('Survey', 'select')
@@ -525,6 +551,7 @@ def run(ctx):
     rule_N2(ctx)
     rule_N3(ctx)
     rule_N3_flag(ctx)
+    rule_N3_scalar(ctx)
     rule_N4(ctx)
     # cached weights (1/std^2) must not survive a replacement of the
     # observed data they were computed from (shared rule with C12.OW2)
